@@ -25,6 +25,8 @@ struct Tracer {
     std::unordered_set<uint32_t> seenTerms;
     std::unordered_set<std::string> seenSyms;
     bool derivedScope = false; // clauses added inside SatELite elimination are derived, not input
+    unsigned long written = 0;  // a run-away search must not fill the disk: the trace stops after maxBytes
+    static constexpr unsigned long maxBytes = 64ul * 1024 * 1024;
     Tracer() {
         char const * p = std::getenv("OPENSMT_VERIF_TRACE");
         if (p and *p) { f = std::fopen(p, "a"); }
@@ -45,6 +47,8 @@ inline bool on() {
 inline void raw(std::string const & s) {
     Tracer & t = Tracer::get();
     if (not t.f) { return; }
+    t.written += s.size() + 1;
+    if (t.written > Tracer::maxBytes) { return; }
     std::fputs(s.c_str(), t.f);
     std::fputc('\n', t.f);
     std::fflush(t.f);
